@@ -590,8 +590,45 @@ func (m *c03Monitor) AfterBeginBlock(r *Run, ctx sdk.Context) {
 
 func (m *c03Monitor) BeforeTx(r *Run, ctx sdk.Context, tx *BuiltTx) { m.pre = r.Ledger(ctx) }
 
+// secondHolder: a record the second holder still holds exists and its stored hold count covers those holds.
+func (m *c03Monitor) secondHolder(r *Run, cur *Ledger, what string) {
+	for _, k := range sortedKeysU(r.ExtraHolds) {
+		n := r.ExtraHolds[k]
+		if n == 0 {
+			continue
+		}
+		if _, ok := cur.Records[k]; !ok {
+			r.Violate(m.Name(), "no-record-lost-or-released-early", "released-while-held-by-second-holder", fmt.Sprintf("%s: record %s is gone although a second holder still holds it %d time(s)", what, k, n))
+			return
+		}
+		if cur.Holds[k] < n {
+			r.Violate(m.Name(), "hold-count-covers-every-holder", what[:strings.IndexAny(what+":", ":")], fmt.Sprintf("%s: record %s has a stored hold count of %d but the second holder alone holds it %d time(s)", what, k, cur.Holds[k], n))
+			return
+		}
+	}
+	if len(r.ReleaseErr) > 0 {
+		r.Violate(m.Name(), "hold-count-covers-every-holder", "release-refused", fmt.Sprintf("%s: the second holder's release was refused: %v", what, r.ReleaseErr))
+	}
+}
+
+func sortedKeysU(m map[string]uint64) []string {
+	ks := make([]string, 0, len(m))
+	for k := range m {
+		ks = append(ks, k)
+	}
+	sort.Strings(ks)
+	return ks
+}
+
 // AfterDirect: a direct slash call behaves like the slashing part of BeginBlock.
 func (m *c03Monitor) AfterDirect(r *Run, ctx sdk.Context, op Op) {
+	if op.K == "hold" || op.K == "unhold" {
+		cur := r.Ledger(ctx)
+		m.unchanged(r, m.last, cur, "second-holder", false)
+		m.secondHolder(r, cur, "second-holder")
+		m.last = cur
+		return
+	}
 	cur := r.Ledger(ctx)
 	m.unchanged(r, m.last, cur, "direct-slash", true)
 	if len(cur.Records) != len(m.last.Records) && r.Viol == nil {
@@ -763,7 +800,12 @@ func (r *Run) operatorState(ctx sdk.Context, op sdk.AccAddress) string {
 func (m *c03Monitor) AfterEndBlock(r *Run, ctx sdk.Context, _ abci.ResponseEndBlock) {
 	cur := r.Ledger(ctx)
 	pre := m.last
-	defer func() { m.last = cur }()
+	defer func() {
+		m.last = cur
+		if r.Viol == nil {
+			m.secondHolder(r, cur, "end-block")
+		}
+	}()
 	h := uint64(cur.Height)
 	// holds that the dogfood module releases in this block (read from its pending list)
 	dec := map[string]uint64{}
@@ -790,6 +832,10 @@ func (m *c03Monitor) AfterEndBlock(r *Run, ctx sdk.Context, _ abci.ResponseEndBl
 				d = hold
 			}
 			hold -= d
+		}
+		// holds of the simulated second holder are the monitor's own tally, not the store's
+		if extra := r.ExtraHolds[k]; hold < extra {
+			hold = extra
 		}
 		due := rec.CompleteBlockNumber <= h
 		after, present := cur.Records[k]
